@@ -75,6 +75,13 @@ def _stands_for(value, obj):
     return False
 
 
+def _unwrapped(value):
+    # the object itself behind a proxy that has been followed
+    if isinstance(value, EProxy) and value.resolved:
+        return value._wrapped
+    return value
+
+
 class PyEcoreValue(object):
     def __init__(self, owner, efeature):
         super().__init__()
@@ -126,7 +133,8 @@ class PyEcoreValue(object):
                               .remove_or_unset(value)
             value._container = self.owner
             value._containment_feature = self.feature
-        if previous_value is not None and previous_value is not value:
+        if previous_value is not None \
+                and _unwrapped(previous_value) is not _unwrapped(value):
             previous_value._container = None
             previous_value._containment_feature = None
 
